@@ -6,6 +6,7 @@
 # removes the worktree. Nothing is written to /repo or to /verif/evidence.
 set -u
 export GOFLAGS=-mod=mod GOPROXY=off GOSUMDB=off GOTOOLCHAIN=local
+ROOT=$(dirname "$(dirname "$(readlink -f "$0")")")
 D=$(readlink -f "$1"); TIER=${2:-quick}
 NAME=$(basename "$D")
 PROPS=$(python3 -c "
@@ -18,7 +19,7 @@ mkdir -p /tmp/mt "$OUT"
 git -C /repo worktree add -q --detach "$WT" HEAD || { echo "{\"name\":\"$NAME\",\"error\":\"worktree\"}"; exit 0; }
 cleanup() {
   git -C /repo worktree remove --force "$WT" >/dev/null 2>&1
-  rm -rf "$OUT" /verif/bin/*-$(echo "$WT" | cksum | cut -d' ' -f1) /verif/.scratch/go-$(echo "$WT" | cksum | cut -d' ' -f1).* 2>/dev/null
+  rm -rf "$OUT" "$ROOT"/bin/*-$(echo "$WT" | cksum | cut -d' ' -f1) "$ROOT"/.scratch/go-$(echo "$WT" | cksum | cut -d' ' -f1).* 2>/dev/null
 }
 trap cleanup EXIT
 if ! git -C "$WT" apply "$D/patch.diff" 2>/dev/null; then
@@ -35,7 +36,7 @@ RES=""
 for P in $PROPS; do
   if [ $build -ne 0 ]; then break; fi
   start=$(date +%s)
-  VERIF_REPO="$WT" VERIF_OUT="$OUT" /verif/run.sh $P $TIER >"$OUT/$P.log" 2>&1; rc=$?
+  VERIF_REPO="$WT" VERIF_OUT="$OUT" "$ROOT"/run.sh $P $TIER >"$OUT/$P.log" 2>&1; rc=$?
   sigs=$(grep -E '^\s+\[' "$OUT/$P.log" | sed -E 's/^\s+\[(.*)\] x([0-9]+) first case.*/\1 x\2/' | head -8 | python3 -c "import sys,json;print(json.dumps([l.rstrip('\n') for l in sys.stdin]))")
   RES="$RES{\"prop\":\"$P\",\"exit\":$rc,\"violation_lines\":$(grep -c '^VIOLATION' "$OUT/$P.log"),\"secs\":$(($(date +%s)-start)),\"signatures\":$sigs},"
 done
